@@ -108,6 +108,7 @@ func c05GenThreadingConc(r *verifh.Rng) []verifh.Section {
 		secs = append(secs, verifh.Section{Cfg: fmt.Sprintf("kind=runner mode=conc n=%d", n), Ops: []string{
 			fmt.Sprintf("run g=%d iters=%d imm=%d pan=%d exits=%s rs=%d", g, r.Range(10, verifh.Scale(40, 120)), r.Pick(0, 30, 70), r.Pick(0, 10, 40), r.PickS("s", "seg", "e"), r.Intn(1<<30)),
 			fmt.Sprintf("run g=%d iters=%d imm=%d pan=%d exits=%s rs=%d", g, r.Range(5, 30), 50, 100, r.PickS("seg", "g", "se"), r.Intn(1<<30)),
+			fmt.Sprintf("waitprobe rounds=%d pan=%d exits=%s rs=%d", r.Range(100, verifh.Scale(300, 1000)), r.Pick(0, 0, 30, 100), r.PickS("s", "seg"), r.Intn(1<<30)),
 		}})
 	}
 	return secs
@@ -422,6 +423,57 @@ func c05StartRunner(cfg verifh.Cfg) (func(op []string) string, func()) {
 			return "stuck"
 		case "probe":
 			return fmt.Sprintf("free=%d", probe())
+		case "waitprobe":
+			// rounds of: schedule k <= n short tasks (Schedule / ScheduleImmediately, some ending by panic or
+			// Goexit), Wait, and AT ONCE look at the slots: Wait returning means every task has given its slot
+			// back (release happens before Done). The window of an inverted order is a few instructions wide
+			// without a panic, so the round is repeated; no false alarm is possible on a correct order.
+			p := c5.Params(op)
+			rounds, pan := p.Int("rounds", 100), p.Int("pan", 0)
+			exits := p.Str("exits", "s")
+			if dead || wgLeaked {
+				return "stuck"
+			}
+			r := c5.Rng(p, 0)
+			early, worst, busy := 0, 0, 0
+			for i := 0; i < rounds; i++ {
+				k := 1 + r.Intn(n)
+				for j := 0; j < k; j++ {
+					var kind byte
+					if r.Intn(100) < pan {
+						kind = exits[r.Intn(len(exits))]
+					}
+					task := func() {
+						if kind != 0 {
+							c5.Abort(kind)
+						}
+					}
+					if r.Bool() {
+						rp.Schedule(task)
+					} else if rp.ScheduleImmediately(task) != nil {
+						busy++ // k <= n tasks after a Wait: a refusal means slots of finished tasks are still taken
+					}
+				}
+				done := make(chan struct{})
+				go func() { rp.Wait(); close(done) }()
+				select {
+				case <-done:
+				case <-time.After(10 * time.Second):
+					dead, wgLeaked = true, true
+					stuckWaits++
+					return "stuck wait"
+				}
+				if taken := len(rp.limitChan); taken > 0 {
+					early++
+					if taken > worst {
+						worst = taken
+					}
+				}
+				if !c5.WaitUntil(5*time.Second, func() bool { return len(rp.limitChan) == 0 }) {
+					return fmt.Sprintf("leaked rounds=%d early=%d worst=%d busy=%d", i+1, early, worst, busy)
+				}
+			}
+			return fmt.Sprintf("rounds=%d early=%d worst=%d busy=%d", rounds, early, worst, busy)
 		case "run":
 			p := c5.Params(op)
 			g, iters, imm, pan := p.Int("g", 2), p.Int("iters", 10), p.Int("imm", 0), p.Int("pan", 0)
